@@ -72,7 +72,7 @@ var (
 	c13AdvanceS = []int{0, 1, 2, 5, 10, 20, 29, 31, 45, 60, 61, 90, 119, 121, 200, 299, 301, 400, 900, 2000}
 	c13PastS    = []int{1, 2, 5, 10, 20, 30, 45, 60, 90, 120, 200, 300, 600, 1200}
 	c13FutureS  = []int{1, 2, 5, 10, 20, 30, 45, 60, 90, 120, 200, 300, 600, 1200, 3600}
-	c13Summary  = []string{"s1", "s2", "s3"}
+	c13Summary  = []string{"s1", "s2", "s3", ""} // an annotation may be empty (a template that rendered to nothing)
 )
 
 func c13P(t *rapid.T, pct int, label string) bool {
@@ -144,6 +144,9 @@ func genC13(t *rapid.T) c13Scenario {
 				}
 				if c13P(t, 40, "ann") {
 					a.Annotations = map[string]string{"summary": rapid.SampledFrom(c13Summary).Draw(t, "summary")}
+					if c13P(t, 25, "ann2") {
+						a.Annotations["description"] = rapid.SampledFrom([]string{"", "d", "line\nbreak"}).Draw(t, "description")
+					}
 				}
 				// times
 				switch s := rapid.IntRange(0, 99).Draw(t, "startKind"); {
@@ -666,7 +669,7 @@ func execC13(sc c13Scenario) (res pbt.Result) {
 func TestC13Ingest(t *testing.T) {
 	pbt.Run(t, pbt.Spec[c13Scenario]{
 		Property: "C13", Name: "C13Ingest",
-		Rule: "histories of 3-12 (thorough: 3-30) operations over 1-3 recurring label sets (alertname + a,b,c x {x,y,z}; UTF-8 names outside classic mode): POST batches of 1-4 alerts (start/end omitted, past, future, repeated; empty-valued labels; invalid: no labels, only empty labels, bad label/annotation names for the active mode, end before start), virtual-time advances of 0-2000 s (+1 ms, across GC ticks of 1/5/30 min and across ends), filtered GETs; resolve_timeout 30 s/2 m/5 m; parser mode fallback/classic/utf8. After every step GET (all state flags on) and the provider's content are compared with ref.C13AlertStore. Submissions whose outcome statement and docs leave open (no start + future end, ranges that only touch, no end against a later explicit end, end == receive instant) are not sent and counted as excluded. Non-trivial: the history contains a re-submission of a stored label set with an overlapping range AND a GC removal or an alert expiring between steps.",
+		Rule: "histories of 3-12 (thorough: 3-30) operations over 1-3 recurring label sets (alertname + a,b,c x {x,y,z}; UTF-8 names outside classic mode): POST batches of 1-4 alerts (start/end omitted, past, future, repeated; empty-valued labels; annotations incl. empty values; invalid: no labels, only empty labels, bad label/annotation names for the active mode, end before start), virtual-time advances of 0-2000 s (+1 ms, across GC ticks of 1/5/30 min and across ends), filtered GETs; resolve_timeout 30 s/2 m/5 m; parser mode fallback/classic/utf8. After every step GET (all state flags on) and the provider's content are compared with ref.C13AlertStore. Submissions whose outcome statement and docs leave open (no start + future end, ranges that only touch, no end against a later explicit end, end == receive instant) are not sent and counted as excluded. Non-trivial: the history contains a re-submission of a stored label set with an overlapping range AND a GC removal or an alert expiring between steps.",
 		Gen:  genC13, Exec: execC13,
 	})
 }
